@@ -11,6 +11,7 @@
 -/
 import AferoVerif.Model.Cache
 import AferoVerif.Proofs.MemFile
+import AferoVerif.Proofs.Reach
 namespace AferoVerif.C11
 open AferoVerif
 
@@ -379,5 +380,79 @@ theorem union_bytes_identical (u : UFile) (s : Layers) (ops : List UOp) (h : Twi
 example : let r := Cache.create ({} : Cow) "/f".toList
     Twin r.1.s { bi := 0, li := 0 } := by
   refine ⟨_, _, rfl, rfl, rfl, by decide, by decide, by decide, rfl⟩
+
+/-- **`Create` through the cache returns twins, in every state**: whatever the two layers hold
+    (any states in which names lead to allocated objects — every reachable state), `Create(name)`
+    returns a union handle whose base side and cache side are at offset 0 on two empty files; so by
+    `union_twin_preserved` every later Read/Write/Seek/Truncate sequence through that handle keeps
+    base and cache byte-identical. -/
+theorem create_returns_twins (c : Cow) (name : Str) (hb : MemFs.InRange c.s.b) (hl : MemFs.InRange c.s.l) :
+    ∃ u, (Cache.create c name).2 = .handle c.hs.length none ∧
+      (Cache.create c name).1.hs = c.hs ++ [.union u] ∧ Twin (Cache.create c name).1.s u := by
+  obtain ⟨b1, b2, _, b4, _⟩ := MemFs.create_spec c.s.b (keyOfStr name) hb
+  obtain ⟨l1, l2, _, l4, _⟩ := MemFs.create_spec c.s.l (keyOfStr name) hl
+  unfold Cache.create
+  simp only [MemFs.addHandle, Cow.addH]
+  refine ⟨{ bi := (c.s.b.create (keyOfStr name)).1.handles.length, li := (c.s.l.create (keyOfStr name)).1.handles.length }, trivial, rfl, ?_⟩
+  refine ⟨⟨(c.s.b.create (keyOfStr name)).2, { readOnly := false }, 0⟩, ⟨(c.s.l.create (keyOfStr name)).2, { readOnly := false }, 0⟩,
+    by simp, by simp, rfl, Int.le_refl 0, b2, l2, ?_⟩
+  show ((c.s.b.create (keyOfStr name)).1.obj _).data = ((c.s.l.create (keyOfStr name)).1.obj _).data
+  rw [b4, l4]
+
+/-- a file created through the cache and then written, read, sought and truncated through the
+    returned handle in any way is byte-identical in base and cache -/
+theorem create_then_io_identical (c : Cow) (name : Str) (ops : List UOp) (hb : MemFs.InRange c.s.b) (hl : MemFs.InRange c.s.l) :
+    ∃ u mb ml, (ops.foldl (applyU u) (Cache.create c name).1.s).b.handles[u.bi]? = some mb ∧
+      (ops.foldl (applyU u) (Cache.create c name).1.s).l.handles[u.li]? = some ml ∧
+      ((ops.foldl (applyU u) (Cache.create c name).1.s).b.obj mb.obj).data =
+        ((ops.foldl (applyU u) (Cache.create c name).1.s).l.obj ml.obj).data := by
+  obtain ⟨u, _, _, ht⟩ := create_returns_twins c name hb hl
+  obtain ⟨mb, ml, h1, h2, h3, _⟩ := union_bytes_identical u _ ops ht
+  exact ⟨u, mb, ml, h1, h2, h3⟩
+
+/-- `OpenFile` of an existing name without O_EXCL, any other flags: a fresh handle on the same
+    object; the bytes are kept, or dropped when the flags truncate -/
+theorem openFile_existing_gen (m : MemFs) (k : Key) (flag perm f : Nat) (hl : m.lookup k = some f)
+    (hx : flag &&& O_EXCL = 0) (hf : f < m.objs.length) :
+    (m.openFile k flag perm).2 = .handle m.handles.length none ∧
+    (m.openFile k flag perm).1.handles[m.handles.length]? =
+      some ⟨f, ⟨if flag &&& O_APPEND > 0 then ((m.obj f).data.length : Int) else 0, decide (flag &&& (O_WRONLY ||| O_RDWR) = 0), false⟩, 0⟩ ∧
+    (m.openFile k flag perm).1.objs.length = m.objs.length ∧
+    ((m.openFile k flag perm).1.obj f).data =
+      (if flag &&& O_TRUNC > 0 ∧ flag &&& (O_RDWR ||| O_WRONLY) > 0 then [] else (m.obj f).data) := by
+  unfold MemFs.openFile
+  simp only [hl, Option.isSome_some, true_and, hx, Nat.lt_irrefl, if_false]
+  by_cases hT : (flag &&& O_TRUNC > 0 ∧ flag &&& (O_RDWR ||| O_WRONLY) > 0)
+  · simp only [hT, and_self, if_true, Bool.false_eq_true, if_false]
+    refine ⟨rfl, by simp [MemFs.setObj], by simp [MemFs.setObj], ?_⟩
+    have := obj_setObj_same m f { m.obj f with data := [], mtime := m.now } hf
+    unfold MemFs.obj at this ⊢; simp only at this ⊢; rw [this]
+  · simp only [hT, if_false, Bool.false_eq_true]
+    exact ⟨trivial, by simp, trivial, rfl⟩
+
+/-- **a write-open of a cached, coherent file returns twins**: if the name is a cache hit and base
+    and cache hold the same bytes under it, `OpenFile` with any write flags (no O_EXCL) returns a
+    union handle whose two sides are twins — so everything written through it reaches both layers
+    identically (`union_twin_preserved`). -/
+theorem openFile_hit_returns_twins (c : Cow) (dur : Int) (name : Str) (flag perm bf lf : Nat)
+    (hst : Cache.cacheStatus c dur (keyOfStr name) = .hit)
+    (hw : flag &&& cowWriteMask ≠ 0) (hx : flag &&& O_EXCL = 0)
+    (hb : c.s.b.lookup (keyOfStr name) = some bf) (hl : c.s.l.lookup (keyOfStr name) = some lf)
+    (hbf : bf < c.s.b.objs.length) (hlf : lf < c.s.l.objs.length)
+    (hco : (c.s.b.obj bf).data = (c.s.l.obj lf).data) :
+    ∃ u, (Cache.openFile c dur name flag perm).2 = .handle c.hs.length none ∧
+      (Cache.openFile c dur name flag perm).1.hs = c.hs ++ [.union u] ∧
+      Twin (Cache.openFile c dur name flag perm).1.s u := by
+  obtain ⟨b1, b2, b3, b4⟩ := openFile_existing_gen c.s.b (keyOfStr name) flag perm bf hb hx hbf
+  obtain ⟨l1, l2, l3, l4⟩ := openFile_existing_gen c.s.l (keyOfStr name) flag perm lf hl hx hlf
+  unfold Cache.openFile
+  simp only [hst, or_true, if_true, hw, ne_eq, not_false_eq_true, b1, l1, Cow.addH]
+  refine ⟨{ bi := c.s.b.handles.length, li := c.s.l.handles.length }, trivial, rfl, ?_⟩
+  refine ⟨_, _, b2, l2, ?_, ?_, by rw [b3]; exact hbf, by rw [l3]; exact hlf, ?_⟩
+  · rw [hco]
+  · show (0 : Int) ≤ (if flag &&& O_APPEND > 0 then ((c.s.b.obj bf).data.length : Int) else 0)
+    split <;> omega
+  · show ((c.s.b.openFile (keyOfStr name) flag perm).1.obj bf).data = ((c.s.l.openFile (keyOfStr name) flag perm).1.obj lf).data
+    rw [b4, l4, hco]
 
 end AferoVerif.C11
